@@ -351,6 +351,8 @@ OPNMIDI_EXPORT int opn2_getLfoFrequency(struct OPN2_MIDIPlayer *device)
 OPNMIDI_EXPORT void opn2_setChipType(struct OPN2_MIDIPlayer *device, int chipType)
 {
     if(!device) return;
+    if(chipType < -1 || chipType > OPNMIDI_ChipType_OPNA)
+        return; // Not a chip type: keep the current setting
     MidiPlayer *play = GET_MIDI_PLAYER(device);
     assert(play);
     play->m_setup.chipType = chipType;
@@ -476,6 +478,8 @@ OPNMIDI_EXPORT void opn2_setVolumeRangeModel(struct OPN2_MIDIPlayer *device, int
 {
     if(!device)
         return;
+    if(volumeModel < 0 || volumeModel >= OPNMIDI_VolumeModel_Count)
+        return; // Not a volume model: keep the current setting
     MidiPlayer *play = GET_MIDI_PLAYER(device);
     assert(play);
     Synth &synth = *play->m_synth;
